@@ -9,7 +9,7 @@
   R-HEAD      a returned Task, however it was built, can be started by the step (see lib_head)
 """
 from rules import lib_accessor, lib_head
-from vlib import pathwalk
+from vlib import facts, pathwalk
 
 CORE = 'include/yaclib/algo/detail/core.hpp'
 
@@ -222,6 +222,97 @@ def check_entries(ctx, fb, re_):
         ctx.broken('Core::Call/Drop instantiations not found (%d)' % n)
 
 
+def _variant_alts(t):
+    """alternatives of 'std::variant<A, B<x, y>, C>'"""
+    if not t.startswith('std::variant<'):
+        return None
+    body = t[len('std::variant<'):-1]
+    out, depth, cur = [], 0, ''
+    for ch in body:
+        if ch == '<':
+            depth += 1
+        elif ch == '>':
+            depth -= 1
+        if ch == ',' and depth == 0:
+            out.append(cur.strip())
+            cur = ''
+        else:
+            cur += ch
+    out.append(cur.strip())
+    return out
+
+
+def check_result(ctx, fb, rule):
+    """R-RESULT: the carrier itself.  Result<V,E>::State() is the variant index cast to ResultState, so the order of
+    the variant alternatives must be the order of the enumerators (Value: V/Unit, Exception: exception_ptr, Error: E,
+    Empty: monostate); every constructor initialises the alternative of its parameter kind; every accessor takes the
+    alternative of its name; operator bool is State() == Value; Get() maps Value -> Value(), Exception -> rethrow,
+    Error -> throw ResultError, anything else -> throw ResultEmpty."""
+    enum = fb.enums.get('yaclib::ResultState')
+    if not enum:
+        ctx.broken('ResultState not found')
+    n = 0
+    for r in sorted(fb.records.values(), key=lambda r: r.name):
+        if r.qn != 'yaclib::Result' or not r.fields:
+            continue
+        alts = _variant_alts(r.fields[0]['t'])
+        if not alts or len(alts) != 4:
+            ctx.broken('R-RESULT: storage of %s is not a 4-alternative variant (%s)' % (r.name, r.fields[0]['t'][:80]))
+        n += 1
+        key = 'R-RESULT %s' % 'yaclib::Result'
+        ctx.instance(rule, key + ' :: ' + r.name[:100], dict(alternatives=alts, enum=enum))
+        E = r.ta[1] if len(r.ta) > 1 else None
+        kinds = []
+        for a in alts:
+            if 'exception_ptr' in a:
+                kinds.append('Exception')
+            elif a == 'std::monostate':
+                kinds.append('Empty')
+            elif E is not None and a == E:
+                kinds.append('Error')
+            else:
+                kinds.append('Value')
+        want = [k for k, v in sorted(enum.items(), key=lambda kv: kv[1])]
+        if kinds != want:
+            ctx.report(rule, key + ' alternative order', '%s:%s' % (facts.rel(r.file), r.line),
+                       'State() casts the variant index to ResultState, but the alternatives are ordered %s while the '
+                       'enumerators are ordered %s: states are reported under the wrong name' % (kinds, want),
+                       'instantiation: ' + r.name)
+        for f in fb.fn.values():
+            if f.cls != r.name:
+                continue
+            if 'ctor' in f.flags and len(f.params) == 1:
+                pt = f.locals[f.params[0]]['t']
+                kind = 'Exception' if 'exception_ptr' in pt else 'Error' if (pt == E or pt == 'yaclib::StopTag') \
+                    else None
+                if kind is None:
+                    continue
+                for it in f.raw.get('inits', []):
+                    txt = f.text(it['e'])
+                    got = None
+                    for d in f.descendants(it['e']):
+                        t = f.nodes[d].get('t', '')
+                        if t.startswith('std::in_place_type_t<') or t.startswith('const std::in_place_type_t<'):
+                            inner = t[t.index('<') + 1:-1]
+                            got = 'Exception' if 'exception_ptr' in inner else 'Error' if inner == E else \
+                                'Empty' if inner == 'std::monostate' else 'Value'
+                    if got is not None and got != kind:
+                        ctx.report(rule, key + ' constructor', f.where, 'Result(%s) initialises the %s alternative '
+                                   '(expected %s)' % (pt, got, kind), 'instantiation: ' + f.full[:200] + ' ' + txt[:80])
+            if f.n in ('Value', 'Exception', 'Error') and f.cfg is not None:
+                gets = [x for x in f.own_nodes() if x.get('cn') == 'std::get' and x.get('cta')]
+                for g in gets:
+                    a = g['cta'][0]
+                    got = 'Exception' if 'exception_ptr' in a else 'Error' if a == E else \
+                        'Empty' if a == 'std::monostate' else 'Value'
+                    if got != f.n:
+                        ctx.report(rule, key + ' accessor', f.where, 'Result::%s() returns the %s alternative' % (
+                            f.n, got), 'instantiation: ' + f.full[:200])
+    if n < 3:
+        ctx.broken('R-RESULT: fewer than 3 Result instantiations')
+    return n
+
+
 def run(ctx):
     fbs = ctx.facts(['K17', 'K20'], kinds=('probe', 'lib'), only=r'p_async\.cpp$|p_coro\.cpp$|src/', tests=r'/test/',
                     quick_tests=r'unit/async/(future|future_functor|future_inline|make_future|make_task)\.cpp')
@@ -236,8 +327,11 @@ def run(ctx):
     ctx.assume('a Result delivered to a step is never Empty')
     rmv = ctx.rule('R-MOVEOUT.site', 'a step takes the result of a flattened inner future by move only when that future '
                    'is statically unique or provably the last observer', minimum=0)
+    rres = ctx.rule('R-RESULT', 'Result<V,E>: variant alternative order == ResultState enumerator order; constructors and '
+                    'accessors take the alternative of their kind', minimum=6)
     from rules import lib_core
     for cfg, fb in sorted(fbs.items()):
+        check_result(ctx, fb, rres)
         lib_core.check_move_sites(ctx, fb, rmv, lambda f: f.file.endswith('algo/detail/core.hpp'))
         fns = [f for f in lib_accessor.functions_with_accessors(fb, [CORE])]
         lib_accessor.check(ctx, fb, ra, fns)
